@@ -176,3 +176,48 @@ func recvOf(cc *ssa.CallCommon) ssa.Value {
 	}
 	return nil
 }
+
+// cmpIntConst: cond compares a value with an integer constant; returned with
+// the constant on the right (`0 >= x` is `x <= 0`).
+func cmpIntConst(cond ssa.Value) (x ssa.Value, op token.Token, k int64, ok bool) {
+	b, isB := cond.(*ssa.BinOp)
+	if !isB {
+		return nil, 0, 0, false
+	}
+	switch b.Op {
+	case token.EQL, token.NEQ, token.LSS, token.LEQ, token.GTR, token.GEQ:
+	default:
+		return nil, 0, 0, false
+	}
+	if kv, isK := constInt(b.Y); isK {
+		return b.X, b.Op, kv, true
+	}
+	if kv, isK := constInt(b.X); isK {
+		flip := map[token.Token]token.Token{token.EQL: token.EQL, token.NEQ: token.NEQ, token.LSS: token.GTR, token.LEQ: token.GEQ, token.GTR: token.LSS, token.GEQ: token.LEQ}
+		return b.Y, flip[b.Op], kv, true
+	}
+	return nil, 0, 0, false
+}
+
+// signOf: what the guard says about x compared with zero, for an integer x
+// that is never negative or for a plain sign test: +1 = x > 0, 0 = x <= 0,
+// -1 = nothing recognised.
+func signOf(g Guard, isX func(ssa.Value) bool) int {
+	x, op, k, ok := cmpIntConst(g.Cond)
+	if !ok || !isX(x) {
+		return -1
+	}
+	var posOnTrue bool
+	switch {
+	case op == token.GTR && k == 0, op == token.GEQ && k == 1:
+		posOnTrue = true
+	case op == token.LEQ && k == 0, op == token.LSS && k == 1:
+		posOnTrue = false
+	default:
+		return -1
+	}
+	if posOnTrue == g.Branch {
+		return 1
+	}
+	return 0
+}
